@@ -292,7 +292,10 @@ func c16Eval(c *fw.Ctx, k c16Case) (sig, desc string, nontrivial bool, outcome s
 		if err != nil {
 			return nil
 		}
-		r, _ := f.Rings()
+		r, err := f.Rings()
+		if err != nil {
+			return nil
+		}
 		return r
 	}
 	equalInWindow := func(want []*ExpSeries, got []wsp.Ring, nanToo bool) string {
